@@ -1,7 +1,7 @@
 //@ assume: the socket / file are ABSTRACT BYTE STREAMS: an InStream is the sequence of bytes still to come, read_exact(buf) either fails or fills the WHOLE buffer with the next bytes and consumes exactly them; an OutStream is what has been written, write_all(bytes) either fails or appends exactly them; an attachment File yields its content chunk by chunk (read: Ok(0) at the end, Ok(n) with n <= the buffer otherwise; that the chunks are finite is NOT assumed: termination of the copy loop is not decided); ser::deserialize / ser::ser_vec are uninterpreted (their contracts: C10 / C11 units); the send-rate delay (tracker clock, thread::sleep) is abstract; Tracker counters are ghost
-//@ assume: T6: `vec![0u8; n]` => zeroed(n); `ser::deserialize(&mut &head[..], version, DeserializationMode::default())?` => deser_header(&head, version)? / deser_body; `buf.extend(&msg.body[..])` => extend_bytes; `&buf[..]` / `&buf[..n]` => slice helpers; `Err(From::from(e))` => Err(Error::Io); `.map_err(From::from)` dropped against an abstract callee returning the final error type; T5: generic `<T: Readable, R: Read>` => one abstract body type and the abstract streams
+//@ assume: T6: `vec![0u8; n]` => zeroed(n); `ser::deserialize(&mut &head[..], version, DeserializationMode::default())?` => deser_header(&head, version)? / deser_body; `buf.extend(&msg.body[..])` => extend_bytes; `&buf[..]` / `&buf[..n]` => slice helpers; `Err(From::from(e))` => Err(Error::Io); `.map_err(From::from)` dropped against an abstract callee returning the final error type; T5: generic `<T: Readable>` => one abstract body type; `R: Read` stays generic over a `Read` trait carrying read_exact's contract (std::io::BufReader is OFFERED as an implementor that reads ahead); `W: Write` => the abstract output stream
 //@ assume: decided here (C19 'any sequence of protocol messages written by one peer is read by the other as the identical sequence', at the level of ONE message): write_message puts on the wire EXACTLY the encoded header, then the body, then the attachment's bytes in order, and counts header + body bytes once; Msg::new announces EXACTLY the body's length in the header; read_header consumes exactly the 11 header bytes; read_body consumes exactly the announced msg_len bytes and decodes THEM; read_discard consumes exactly msg_len bytes; read_message returns a body only for a known header of the EXPECTED type, having consumed header + exactly the announced body; an unknown type is skipped by consuming exactly its announced length (no desynchronisation) and answered BadMessage
-//@ assumed_items: 16
+//@ assumed_items: 19
 //@ fns: msg::read_header, msg::read_body, msg::read_discard, msg::read_message, msg::write_message, Msg::new, MsgHeader::new
 global size_of usize == 8;
 pub enum Error { BadMessage, Io, Ser }
@@ -31,16 +31,37 @@ pub mod ser { use super::*;
     #[verifier::external_body]
     pub fn ser_vec_body(m: &Body, v: ProtocolVersion) -> (r: Result<Vec<u8>, Error>) ensures (r matches Ok(b) ==> sp_ser_body(m, v) == Ok::<Seq<u8>, Error>(b@)), (r is Err ==> sp_ser_body(m, v) is Err) { unimplemented!() }
 }
+/// offered (not used by the pinned text of the functions under contract here): the per-type body limit (C19/msg_header)
+#[verifier::external_body]
+pub fn max_msg_size(msg_type: Type) -> (r: u64) ensures r <= 0x1000_0000 { unimplemented!() }
 #[verifier::external_body]
 pub fn zeroed(n: usize) -> (r: Vec<u8>) ensures r@.len() == n { unimplemented!() }
 #[verifier::external_body]
 pub fn extend_bytes(v: &mut Vec<u8>, more: &Vec<u8>) ensures final(v)@ == old(v)@ + more@ { unimplemented!() }
 pub open spec fn unknown_len(r: Result<MsgHeaderWrapper, Error>) -> Option<u64> { match r { Ok(MsgHeaderWrapper::Unknown(n, _)) => Some(n), _ => None } }
-pub struct InStream { pub rest: Ghost<Seq<u8>> }
-impl InStream {
+/// std::io::Read, as far as this file uses it
+pub trait Read {
+    spec fn rest(&self) -> Seq<u8>;
+    fn read_exact(&mut self, buf: &mut Vec<u8>) -> (r: Result<(), Error>)
+        ensures final(buf)@.len() == old(buf)@.len(), (r matches Err(e) ==> e is Io), r is Ok ==> old(self).rest().len() >= old(buf)@.len() && final(buf)@ == old(self).rest().take(old(buf)@.len() as int) && final(self).rest() == old(self).rest().skip(old(buf)@.len() as int);
+}
+pub struct InStream { pub bytes: Ghost<Seq<u8>> }
+impl Read for InStream {
+    open spec fn rest(&self) -> Seq<u8> { self.bytes@ }
     #[verifier::external_body]
-    pub fn read_exact(&mut self, buf: &mut Vec<u8>) -> (r: Result<(), Error>)
-        ensures final(buf)@.len() == old(buf)@.len(), (r matches Err(e) ==> e is Io), r is Ok ==> old(self).rest@.len() >= old(buf)@.len() && final(buf)@ == old(self).rest@.take(old(buf)@.len() as int) && final(self).rest@ == old(self).rest@.skip(old(buf)@.len() as int) { unimplemented!() }
+    fn read_exact(&mut self, buf: &mut Vec<u8>) -> (r: Result<(), Error>) { unimplemented!() }
+}
+/// std::io::BufReader (OFFERED: the pinned text reads the stream directly): reads AHEAD -- what it hands out is the stream's bytes in order, but
+/// it may have taken more from the underlying stream than it has handed out (up to its capacity), and what it holds is lost when it is dropped
+pub struct BufReader<'a, R: Read> { pub inner: &'a mut R, pub held: Ghost<Seq<u8>> }
+impl<'a, R: Read> BufReader<'a, R> {
+    #[verifier::external_body]
+    pub fn with_capacity(cap: usize, inner: &'a mut R) -> (r: BufReader<'a, R>) ensures r.held@.len() == 0, r.inner.rest() == old(inner).rest() { unimplemented!() }
+}
+impl<'a, R: Read> Read for BufReader<'a, R> {
+    open spec fn rest(&self) -> Seq<u8> { self.held@ + self.inner.rest() }
+    #[verifier::external_body]
+    fn read_exact(&mut self, buf: &mut Vec<u8>) -> (r: Result<(), Error>) { unimplemented!() }
 }
 pub struct OutStream { pub out: Ghost<Seq<u8>> }
 impl OutStream {
@@ -89,44 +110,39 @@ impl Msg {
 //@ end
 }
 //@ extract p2p/src/msg.rs :: fn read_header
-//@   sigrewrite `pub fn read_header<R: Read>(` => `pub fn read_header(`
-//@   sigrewrite `stream: &mut R,` => `stream: &mut InStream,`
 //@   rewrite `vec![0u8; MsgHeader::LEN]` => `zeroed(MsgHeader::LEN)`
 //@   rewrite `ser::deserialize(&mut &head[..], version, DeserializationMode::default())?` => `deser_header(&head, version)?`
 //@   ensures:
-//@+    r matches Ok(h) ==> old(stream).rest@.len() >= 11 && sp_deser_header(old(stream).rest@.take(11), version) == Ok::<MsgHeaderWrapper, Error>(h)
-//@+        && final(stream).rest@ == old(stream).rest@.skip(11),
+//@+    r matches Ok(h) ==> old(stream).rest().len() >= 11 && sp_deser_header(old(stream).rest().take(11), version) == Ok::<MsgHeaderWrapper, Error>(h)
+//@+        && final(stream).rest() == old(stream).rest().skip(11),
 //@+    r matches Err(e) ==> !(e is BadMessage),
 //@ end
 //@ extract p2p/src/msg.rs :: fn read_body
-//@   sigrewrite `pub fn read_body<T: Readable, R: Read>(` => `pub fn read_body(`
-//@   sigrewrite `stream: &mut R,` => `stream: &mut InStream,`
+//@   sigrewrite `pub fn read_body<T: Readable, R: Read>(` => `pub fn read_body<R: Read>(`
 //@   sigrewrite `) -> Result<T, Error>` => `) -> Result<Body, Error>`
 //@   rewrite `vec![0u8; h.msg_len as usize]` => `zeroed(h.msg_len as usize)`
 //@   rewrite `ser::deserialize(&mut &body[..], version, DeserializationMode::default()).map_err(From::from)` => `deser_body(&body, version)`
 //@   ensures:
-//@+    r matches Ok(b) ==> old(stream).rest@.len() >= h.msg_len && sp_deser_body(old(stream).rest@.take(h.msg_len as int), version) == Ok::<Body, Error>(b)
-//@+        && final(stream).rest@ == old(stream).rest@.skip(h.msg_len as int),
+//@+    r matches Ok(b) ==> old(stream).rest().len() >= h.msg_len && sp_deser_body(old(stream).rest().take(h.msg_len as int), version) == Ok::<Body, Error>(b)
+//@+        && final(stream).rest() == old(stream).rest().skip(h.msg_len as int),
 //@ end
 //@ extract p2p/src/msg.rs :: fn read_discard
-//@   sigrewrite `pub fn read_discard<R: Read>(msg_len: u64, stream: &mut R)` => `pub fn read_discard(msg_len: u64, stream: &mut InStream)`
 //@   rewrite `vec![0u8; msg_len as usize]` => `zeroed(msg_len as usize)`
 //@   ensures:
-//@+    r is Ok ==> old(stream).rest@.len() >= msg_len && final(stream).rest@ == old(stream).rest@.skip(msg_len as int),
+//@+    r is Ok ==> old(stream).rest().len() >= msg_len && final(stream).rest() == old(stream).rest().skip(msg_len as int),
 //@+    r matches Err(e) ==> e is Io,
 //@ end
 //@ extract p2p/src/msg.rs :: fn read_message
-//@   sigrewrite `pub fn read_message<T: Readable, R: Read>(` => `pub fn read_message(`
-//@   sigrewrite `stream: &mut R,` => `stream: &mut InStream,`
+//@   sigrewrite `pub fn read_message<T: Readable, R: Read>(` => `pub fn read_message<R: Read>(`
 //@   sigrewrite `) -> Result<T, Error>` => `) -> Result<Body, Error>`
 //@   ensures:
-//@+    r matches Ok(b) ==> old(stream).rest@.len() >= 11 && (sp_deser_header(old(stream).rest@.take(11), version) matches Ok(MsgHeaderWrapper::Known(h))
-//@+        && h.msg_type == msg_type && old(stream).rest@.skip(11).len() >= h.msg_len
-//@+        && sp_deser_body(old(stream).rest@.skip(11).take(h.msg_len as int), version) == Ok::<Body, Error>(b)
-//@+        && final(stream).rest@ == old(stream).rest@.skip(11).skip(h.msg_len as int)),
-//@+    (r matches Err(Error::BadMessage) && old(stream).rest@.len() >= 11 && unknown_len(sp_deser_header(old(stream).rest@.take(11), version)) is Some) ==>
-//@+        old(stream).rest@.skip(11).len() >= unknown_len(sp_deser_header(old(stream).rest@.take(11), version))->0
-//@+        && final(stream).rest@ == old(stream).rest@.skip(11).skip(unknown_len(sp_deser_header(old(stream).rest@.take(11), version))->0 as int),
+//@+    r matches Ok(b) ==> old(stream).rest().len() >= 11 && (sp_deser_header(old(stream).rest().take(11), version) matches Ok(MsgHeaderWrapper::Known(h))
+//@+        && h.msg_type == msg_type && old(stream).rest().skip(11).len() >= h.msg_len
+//@+        && sp_deser_body(old(stream).rest().skip(11).take(h.msg_len as int), version) == Ok::<Body, Error>(b)
+//@+        && final(stream).rest() == old(stream).rest().skip(11).skip(h.msg_len as int)),
+//@+    (r matches Err(Error::BadMessage) && old(stream).rest().len() >= 11 && unknown_len(sp_deser_header(old(stream).rest().take(11), version)) is Some) ==>
+//@+        old(stream).rest().skip(11).len() >= unknown_len(sp_deser_header(old(stream).rest().take(11), version))->0
+//@+        && final(stream).rest() == old(stream).rest().skip(11).skip(unknown_len(sp_deser_header(old(stream).rest().take(11), version))->0 as int),
 //@ end
 //@ extract p2p/src/msg.rs :: fn write_message
 //@   sigrewrite `pub fn write_message<W: Write>(` => `pub fn write_message(`
